@@ -127,43 +127,50 @@ def emit(kw, workers=8, kds=("NoDefects", "AsIs")):
     as it is (MC_Body!AsIs: the recorded deviations F2, F4).  An observation sequence of the real code that lies in neither set is
     MODEL-DRIFT.  Returns (TLCResult of the first run, groups, number of behaviours) where groups maps
     (framing, coding, stacked, decode, enc, chunks, dmgkind, dmgat, ops) -> {"cls", "allowed": set of obs tuples}."""
+    import threading
     groups = {}
     prefixes = {}
     n = [0]
-    cur = [None]
+    lock = threading.Lock()
 
-    def on_line(ln):
-        if not ln.startswith(_PRE):
-            return False
-        body = ln[len(_PRE):-3].replace('\\\\', '\x00').replace('\\"', '"').replace('\x00', '\\')
-        j = json.loads(body)
-        n[0] += 1
-        fr, co, st, de, enc, ch, dk, at, cls, hist, second, verdict, final = j
-        ops = tuple((e[0], e[1]) for e in hist)
-        key = (fr, co, st, de, tuple(enc), tuple(ch), dk, at, ops)
-        g = groups.get(key)
-        if g is None:
-            g = groups[key] = {"cls": cls, "allowed": set(), "verdicts": set()}
-        h = tuple(tuple(e) for e in hist)
-        g["allowed"].add(h + (second,))
-        for jj in range(1, len(h)):                    # every prefix of a behaviour is an allowed observation too
-            prefixes.setdefault(key[:8] + (ops[:jj],), set()).add(h[:jj])
-        if cur[0] == "NoDefects":
-            g["verdicts"].add((verdict, final))
-        return True
+    def make_on_line(kd):
+        def on_line(ln):
+            if not ln.startswith(_PRE):
+                return False
+            body = ln[len(_PRE):-3].replace('\\\\', '\x00').replace('\\"', '"').replace('\x00', '\\')
+            j = json.loads(body)
+            fr, co, st, de, enc, ch, dk, at, cls, hist, second, verdict, final = j
+            ops = tuple((e[0], e[1]) for e in hist)
+            key = (fr, co, st, de, tuple(enc), tuple(ch), dk, at, ops)
+            h = tuple(tuple(e) for e in hist)
+            with lock:
+                n[0] += 1
+                g = groups.get(key)
+                if g is None:
+                    g = groups[key] = {"cls": cls, "allowed": set(), "verdicts": set()}
+                g["allowed"].add(h + (second,))
+                for jj in range(1, len(h)):            # every prefix of a behaviour is an allowed observation too
+                    prefixes.setdefault(key[:8] + (ops[:jj],), set()).add(h[:jj])
+                if kd == "NoDefects":
+                    g["verdicts"].add((verdict, final))
+            return True
+        return on_line
 
-    first = None
-    for kd in kds:
-        cur[0] = kd
+    def one(kd):
         before = n[0]
-        r = tlc.run("MC_Body", cfg(body=EMIT_BODY, **dict(kw, kd=kd)), workers=min(JOBS, workers), heap="3g",
-                    on_line=on_line, timeout=7200)
-        if n[0] == before:
+        r = tlc.run("MC_Body", cfg(body=EMIT_BODY, **dict(kw, kd=kd)), workers=max(1, min(JOBS, workers) // par), heap="3g",
+                    on_line=make_on_line(kd), timeout=7200)
+        if r.generated == 0 or (par == 1 and n[0] == before):
             raise tlc.MachineryError(f"emission ({kd}) produced no behaviour")
-        if first is None:
-            first = r
-        else:
-            first.wall += r.wall
+        return r
+
+    par = len(kds) if JOBS > 4 else 1                  # the settings run side by side on a big machine
+    with ThreadPoolExecutor(par) as ex:
+        rs = list(ex.map(one, kds))
+    if n[0] == 0:
+        raise tlc.MachineryError("emission produced no behaviour")
+    first = rs[0]
+    first.wall = max(r.wall for r in rs) if par > 1 else sum(r.wall for r in rs)
     for key, g in groups.items():
         if not g["verdicts"] <= {("ok", "ok"), ("ok", "NotDriven")}:     # NotDriven: MaxOps reached mid-body
             raise tlc.MachineryError(f"the repaired-design model emitted a behaviour its own monitor rejects: {key} {g['verdicts']}")
@@ -171,6 +178,21 @@ def emit(kw, workers=8, kds=("NoDefects", "AsIs")):
         g["prefix"] = prefixes.get(key, set())
     groups["__prefixes__"] = prefixes
     return first, groups, n[0]
+
+
+def api_coverage(groups, need):
+    """Vacuity gate read back from the emission run: how many emitted op sequences use each API call.  A call the
+    model never takes is a machinery failure (every emitted behaviour also passed Dispose and NextRequest)."""
+    seen = {}
+    for key in groups:
+        if key == "__prefixes__":
+            continue
+        for op, _ in key[8]:
+            seen[op] = seen.get(op, 0) + 1
+    dead = [a for a in need if not seen.get(a)]
+    if dead:
+        raise tlc.MachineryError(f"emission: API calls never taken by the model (vacuous): {dead}")
+    return seen
 
 
 # ---------------------------------------------------------------------------------------------- realization
